@@ -66,9 +66,16 @@ type box struct{ v Value }
 type scope struct {
 	vars   map[string]*box
 	parent *scope
+	act    *activation // the function activation this scope belongs to (nil at top level)
 }
 
-func newScope(parent *scope) *scope { return &scope{vars: map[string]*box{}, parent: parent} }
+func newScope(parent *scope) *scope {
+	s := &scope{vars: map[string]*box{}, parent: parent}
+	if parent != nil {
+		s.act = parent.act
+	}
+	return s
+}
 
 func (s *scope) lookup(name string) *box {
 	for c := s; c != nil; c = c.parent {
@@ -111,6 +118,7 @@ type activation struct {
 // Outcome is what the reference interpreter predicts.
 type Outcome struct {
 	Trace  []string // lines printed, in order
+	Origin []string // parallel to Trace: the Note of the PrintE that printed the line ("" for other statements)
 	Thrown string   // symbol thrown out of the top level uncaught ("" if none)
 	Steps  int
 }
@@ -185,7 +193,12 @@ func (it *Interp) tick() {
 	}
 }
 
-func (it *Interp) print(s string) { it.out.Trace = append(it.out.Trace, s) }
+func (it *Interp) print(s string) { it.printFrom(s, "") }
+
+func (it *Interp) printFrom(s, origin string) {
+	it.out.Trace = append(it.out.Trace, s)
+	it.out.Origin = append(it.out.Origin, origin)
+}
 
 // builtin helpers of the Prelude
 func (it *Interp) builtin(name string, args []Value) (Value, bool) {
@@ -227,7 +240,7 @@ func (it *Interp) stmt(s Stmt, sc *scope, act *activation) completion {
 		if c.k != cNormal {
 			return c
 		}
-		it.print(v.Show())
+		it.printFrom(v.Show(), s.Note)
 	case *PrintThrown:
 		b := sc.lookup(s.Var)
 		if b == nil {
@@ -380,6 +393,7 @@ func (it *Interp) call(params []Param, args []Value, body []Stmt, res Expr, env 
 		sc.declare(p.Name, args[i])
 	}
 	act := &activation{}
+	sc.act = act
 	c := it.block(body, sc, act)
 	var v Value
 	switch c.k {
@@ -533,6 +547,13 @@ func (it *Interp) expr(e Expr, sc *scope) (Value, completion) {
 	case *Mark:
 		it.print(e.Tag)
 		return it.expr(e.E, sc)
+	case *Block:
+		// expressions are evaluated without an activation of their own: find it through the scope
+		bs := newScope(sc)
+		if c := it.block(e.Body, bs, bs.act); c.k != cNormal {
+			return Value{}, c
+		}
+		return it.expr(e.Res, bs)
 	case *ListLit:
 		l := make([]Value, 0, len(e.Elems))
 		for _, a := range e.Elems {
